@@ -109,6 +109,9 @@ func TestC14_Planted(t *testing.T) {
 	strT := uni.Scalar(uni.KString)
 	rapid.Check(t, func(t *rapid.T) {
 		n := rapid.IntRange(2, 8).Draw(t, "entries")
+		if rapid.IntRange(0, 9).Draw(t, "manyEntries") == 0 {
+			n = rapid.IntRange(9, 40).Draw(t, "entriesMany") // beyond the sizes at which sort implementations switch algorithm (12)
+		}
 		m := &uni.Node{T: uni.MapOf(strT, uni.Iface())}
 		pattern := ""
 		for i := 0; i < n; i++ {
@@ -197,7 +200,7 @@ func TestC14_Planted(t *testing.T) {
 			root = m
 		}
 		oddKeys := false
-		if shape != 5 && shape != 6 && rapid.Bool().Draw(t, "oddKeys") {
+		if shape != 5 && shape != 6 && n <= 11 && rapid.Bool().Draw(t, "oddKeys") {
 			// keys as users have them: the empty string, blanks, other scripts, digits (sorted as text), slashes
 			oddKeys = true
 			odd := []string{"", " ", "K", "a/b", "é", "10", "9", "~", "k", "\x00", "-"}
